@@ -337,6 +337,18 @@ type eff struct {
 	value *big.Int
 	ok    bool
 	body  []*eff
+	// a CREATE / CREATE2 instruction was started in this frame and evm.create has not (yet) told the
+	// tracer about it: the early exits (insufficient balance, depth, address collision) stay silent
+	pending *eff
+}
+
+// flushPending records a creation that exited before the tracer was told (no frame was opened).
+func (e *eff) flushPending() {
+	if e != nil && e.pending != nil {
+		e.pending.ok = false
+		e.body = append(e.body, e.pending)
+		e.pending = nil
+	}
 }
 
 func (w *world) coqEffects(l []*eff) string {
@@ -400,6 +412,24 @@ func (t *spyTracer) CaptureStart(env *evm.EVM, from, to ethcomm.Address, create 
 }
 func (t *spyTracer) CaptureState(env *evm.EVM, pc uint64, op evm.OpCode, gas, cost uint64, memory *evm.Memory, stack *evm.Stack,
 	rStack *evm.ReturnStack, rData []byte, contract *evm.Contract, depth int, err error) {
+	if len(t.stack) > 0 {
+		cur := t.stack[len(t.stack)-1]
+		cur.flushPending()
+		if err == nil && (op == evm.CREATE || op == evm.CREATE2) {
+			self := contract.Address()
+			value := stack.Back(0).ToBig()
+			var to ethcomm.Address
+			if op == evm.CREATE {
+				to = crypto.CreateAddress(self, env.StateDB.GetNonce(self))
+			} else {
+				offset, size, salt := stack.Back(1), stack.Back(2), stack.Back(3)
+				code := memory.GetCopy(int64(offset.Uint64()), int64(size.Uint64()))
+				to = crypto.CreateAddress2(self, salt.Bytes32(), crypto.Keccak256(code))
+			}
+			t.w.know(common.Address(to))
+			cur.pending = &eff{kind: "KCreate", to: common.Address(to), value: value}
+		}
+	}
 	if op == evm.SELFDESTRUCT && len(stack.Data()) > 0 {
 		t.sdAny = true
 		top := stack.Data()[len(stack.Data())-1]
@@ -419,6 +449,9 @@ func (t *spyTracer) CaptureEnter(typ evm.OpCode, from, to ethcomm.Address, input
 		return
 	}
 	cur := t.stack[len(t.stack)-1]
+	if typ == evm.CREATE || typ == evm.CREATE2 {
+		cur.pending = nil // evm.create got past its early exits and reports the frame itself
+	}
 	v := new(big.Int)
 	if value != nil {
 		v.Set(value)
@@ -452,6 +485,7 @@ func (t *spyTracer) CaptureExit(output []byte, gasUsed uint64, err error) {
 	}
 	f := t.stack[len(t.stack)-1]
 	t.stack = t.stack[:len(t.stack)-1]
+	f.flushPending()
 	f.ok = err == nil
 }
 func (t *spyTracer) CaptureFault(env *evm.EVM, pc uint64, op evm.OpCode, gas, cost uint64, memory *evm.Memory, stack *evm.Stack,
@@ -460,6 +494,7 @@ func (t *spyTracer) CaptureFault(env *evm.EVM, pc uint64, op evm.OpCode, gas, co
 func (t *spyTracer) CaptureEnd(output []byte, gasUsed uint64, d time.Duration, err error) {
 	t.ended = true
 	if t.top != nil {
+		t.top.flushPending()
 		t.top.ok = err == nil
 	}
 	t.gasLeft = t.gasIn - gasUsed
